@@ -22,6 +22,9 @@ def run(tier, seed):
             if thorough or cl == 12 or (r1 + r2) % 64 in (0, 1, 63):
                 for r3 in r3s:
                     cases.append(Case('stream_c%d_%d_%d_%d' % (cl, r1, r2, r3), 'random', 'zzC14_stream', [cl, r1, r2, r3]))
+    for (r1, r2) in ([(10, 100), (0, 1), (64, 64), (65, 63), (1, 200)] if thorough else [(10, 100), (64, 65)]):
+        for cl in ((0, 12) if thorough else (12,)):
+            cases.append(Case('checkpoints_c%d_%d_%d' % (cl, r1, r2), 'random', 'zzC14_checkpoints', [cl, r1, r2]))
     for r in ([1, 64, 65, 130, 200] if thorough else [1, 65, 130]):
         cases.append(Case('restore_any_r%d' % r, 'random', 'zzC14_restore_any', [r]))
     for sl in range(0, 41 if not thorough else 70):
